@@ -66,7 +66,7 @@ def run_kani_units(units, prop, tier, scratch, jobs, only=None):
         if not hs:
             continue
         try:
-            preps[u.name] = K.prepare(u, scratch)
+            preps[u.name] = K.prepare(u, scratch, keep=set(h.name for h in hs))
             if preps[u.name]['sha_before']:
                 info['sha_before'][u.inject] = preps[u.name]['sha_before']
         except LookupError as e:
